@@ -150,8 +150,16 @@ func runC07SessionTLS(c *Ctx, pki *tlsPKI, m c07TLSMode, q int, f c07Fault, idx 
 		if o.cli.completed && o.srv.completed {
 			var wg sync.WaitGroup
 			wg.Add(2)
-			go func() { defer wg.Done(); o.cli.conn.Write(patBytes(1, 0, 0, 50)); o.cli.conn.Write(patBytes(1, 0, 50, 50)) }()
-			go func() { defer wg.Done(); o.srv.conn.Write(patBytes(2, 1, 0, 50)); o.srv.conn.Write(patBytes(2, 1, 50, 50)) }()
+			go func() {
+				defer wg.Done()
+				o.cli.conn.Write(patBytes(1, 0, 0, 50))
+				o.cli.conn.Write(patBytes(1, 0, 50, 50))
+			}()
+			go func() {
+				defer wg.Done()
+				o.srv.conn.Write(patBytes(2, 1, 0, 50))
+				o.srv.conn.Write(patBytes(2, 1, 50, 50))
+			}()
 			wg.Wait()
 			o.cli.conn.Close()
 			o.srv.conn.Close()
